@@ -194,7 +194,13 @@ def replay_file(pid, mod, path) -> int:
               stubs=[tuple(s) for s in qd.get("stubs", [])], timeout=qd.get("timeout", 900))
     runner = KaniRunner([q], jobs=1)
     try:
-        runner.prepare()
+        try:
+            runner.prepare()
+        except vcore.BuildError as e:
+            # (a record made by an older version of the harness crate: its entry point no longer compiles)
+            print(f"replay of {path}: the recorded harness does not build against the current harness crate / tree")
+            log(str(e)[-1500:])
+            return 2
         crate = runner.pools[q.config].get()
         res = runner.run_playback(q, crate, doc["concrete_playback_test"], doc["test_name"])
         for p in ("dev", "release"):
